@@ -624,6 +624,24 @@ MonDriftSession(S) ==
     : a \in 0..(NAttempts(S) - 1)}
 
 (***************************************************************************)
+(* DRIFT.schedule: a schedule generated by TLC from MC_Conn (Gen_Conn) that *)
+(* the real code followed to its end must end as the model says: what       *)
+(* Stream returned (nil / error) and what the first Error() call returned.  *)
+(***************************************************************************)
+MonDriftSchedule(S) ==
+  IF Scen(S).fam # "c05g" THEN {}
+  ELSE LET sl  == LinesAtt(S, "script", 0)
+           ret == StreamRet(S, 0)
+           ers == LinesAtt(S, "errorReturn", 0)
+           m   == Scen(S).model
+           D(w) == F("DRIFT.schedule", S, [what |-> w, got |-> 0, want |-> 0, k |-> 0, c |-> 0, typ |-> 0])
+       IN IF Len(sl) # 1 \/ ~sl[1].followed \/ ~m.complete THEN {}
+          ELSE (IF m.result = "none" \/ (Len(ret) = 1 /\ ret[1].returned /\ ret[1].res.nil = (m.result = "nil")) THEN {}
+                ELSE {D("Stream's result differs from the result of the model behaviour the run followed")}) \cup
+               (IF m.eres = "none" \/ (Len(ers) >= 1 /\ ers[1].returned /\ ers[1].res.nil = (m.eres = "nil")) THEN {}
+                ELSE {D("Error()'s result differs from the result of the model behaviour the run followed")})
+
+(***************************************************************************)
 (* Dispatch and the replay state machine.                                  *)
 (***************************************************************************)
 \* end-to-end halves of the value properties: the delivered cells of the property's column kinds match the oracle
@@ -638,8 +656,8 @@ Mon(p, S) ==
     [] p = "C07" -> MonC07(S)
     [] p = "C17" -> MonC17(S)
     [] p = "C15" -> MonC15(S)
-    [] p = "C05" -> MonC05(S) \cup MonDrift(S) \cup MonDriftParser(S)
-    [] p = "C06" -> MonC06(S)
+    [] p = "C05" -> MonC05(S) \cup MonDrift(S) \cup MonDriftParser(S) \cup MonDriftSchedule(S)
+    [] p = "C06" -> MonC06(S) \cup MonDriftSchedule(S)
     [] p = "C08" -> MonC08(S)
 
 Failures(S) == UNION {Mon(p, S) : p \in Props}
